@@ -143,7 +143,7 @@ var _ = os.Getenv
 func (v *Verifier) stdModelConformance(n int, seed int64) (map[string]interface{}, []string) {
 	var names []string
 	for name := range v.specs.Funcs {
-		if strings.HasPrefix(name, "secp256k1.verifStd") {
+		if strings.HasPrefix(name, "secp256k1.verifStd") || strings.HasPrefix(name, "secp256k1.verifGo") {
 			names = append(names, name)
 		}
 	}
@@ -181,6 +181,6 @@ func (v *Verifier) stdModelConformance(n int, seed int64) (map[string]interface{
 		}
 	}
 	return map[string]interface{}{"label": "bounded (not counted in obligations/discharged)",
-		"what":     "each trusted standard-library model is stated as a contract on a one-line wrapper (clients/stdmodels.go); the statement is proved from the model and evaluated on runs of the real function",
+		"what":     "each trusted standard-library model (clients/stdmodels.go) and each Go construct beyond straight-line code (clients/constructs.go) is stated as an exact contract on a small wrapper; the statement is proved from the engine's model/semantics and evaluated on runs of the compiled function",
 		"wrappers": len(names), "proved_from_model": proved, "real_runs": runs, "problems": bad}, bad
 }
